@@ -175,6 +175,34 @@ def window(x, p):
                 D > 3120)
 
 
+def faroff(x, p):
+    """The decoder on a well-formed stream picotool's compressor would not
+    produce: a back-reference whose offset lies beyond the compressor's
+    search window (3121..3135 - all the two-byte form can express), after a
+    long run of literals; length and offset symbolic."""
+    off = x.conc(x.int('offset', p['lo'], p['hi']))
+    ln = x.conc(x.int('length', 3, 17))
+    first = x.int('first', 1, 58)          # table index of the first literal
+    nlit = 3140
+    lits = [first] + [0x0d + (k % 20) for k in range(nlit - 1)]
+    b1 = off // 16 + 0x3c
+    b2 = (off % 16) + (ln - 2) * 16
+    stream = bytes(lits) + bytes([b1, b2])
+    total = nlit + ln
+    area = header_sym(total) + stream
+    ref_out, ok = pxc.decode(list(stream), limit=total)
+    x.check('the reference decoder accepts the stream', ok)
+    try:
+        n2, code, csize = compress.decompress_code(area)
+    except Exception as e:
+        x.check('decompress_code accepts every well-formed stream', False,
+                info=repr(e))
+        return
+    x.out('tail', bytes(code[-20:]))
+    x.check('decompress_code agrees with the format decoder',
+            code == bytes(ref_out))
+
+
 def longlen(x, p):
     """Header lengths around the byte and sign boundaries (255/256, 32767/
     32768, 65535): a concrete stream (one literal, then copies of length 17
@@ -214,6 +242,8 @@ HISTORY = [dict(Q, n=1, warmup=w, pre=UP[:k], mid=m, post='!')
                            ('function f()\n return 1\nend\n' * 3, 30,
                             'function f()\n return 1\nend\n'))]
 HARNESSES = [
+    Harness('faroff', faroff, quick=[dict(Q, lo=3119, hi=3122),
+                                     dict(Q, lo=3134, hi=3135)]),
     Harness('history', roundtrip, quick=HISTORY[:2],
             thorough=[dict(h, n=2, _budget=1800) for h in HISTORY]),
     Harness('roundtrip', roundtrip,
